@@ -46,7 +46,9 @@ META = {
         "(R3) The duplicate-definition path issues exactly one [ref.footnote] warning and returns before any construction, "
         "registration or rendering of the duplicate itself, but still searches the token's children for definitions of other "
         "labels: each nested definition is dispatched exactly once and not searched further (its own rendering handles what is "
-        "inside it - so no flat walk()/findall over all descendants), every other token is searched further. "
+        "inside it - so no flat walk()/findall over all descendants), every other token is searched further; tokens whose "
+        "content is tokenised only when rendered (fence, colon_fence, html_block, substitution_block) are not covered by that "
+        "search (known finding). "
         "(R4) The collector's move loop (in apply or one helper) is guarded by myst_footnote_sort only, gathers every entry "
         "of document.footnotes and autofootnotes exactly once, detaches then attaches each footnote once per iteration, in "
         "ascending sorted(key=) order; at most one transition is built, under both settings, appended to the document before "
@@ -72,7 +74,11 @@ META = {
         "- the class test must be quantified over ALL top-level children: applied to one child picked by position, next(), "
         "min/max or pop() it is a violation; when the guard is an all()/any() over the children it must say exactly 'some child is "
         "neither a footnote nor one of the leading nodes docutils' Transitions transform skips' (title, subtitle - read from "
-        "docutils/transforms/misc.py; a docutils superclass such as Titular counts) - and under a test for an existing final transition (not adjacent) whose look-out goes down the tree (advancing loop, "
+        "docutils/transforms/misc.py; a docutils superclass such as Titular counts); because docutils' SectNum/Contents/Filter "
+        "transforms remove nodes after the footnotes were collected, the attached transition is handed to a pending transform "
+        "(registered once on every path that builds it) whose priority lies between the last of those removers and "
+        "Transitions (all read from the docutils sources) and which removes it exactly when all nodes in front of it are such "
+        "leading nodes - and under a test for an existing final transition (not adjacent) whose look-out goes down the tree (advancing loop, "
         "recursion or docutils traversal), because docutils later hoists a transition that ends the last section. "
         "(R10) SortFootnotes ranks a footnote by the position of its FIRST reference (list.index, or a first-wins table "
         "- setdefault / `not in` guarded store / reversed fill - over autofootnote_refs or over the local list of their "
@@ -1133,6 +1139,10 @@ def r2_predicate_and_registries(corpus: Corpus, rep: Report, tier: str):
 # R3 / R6 - the duplicate-definition path
 
 
+# token types whose content is parsed only when the token is rendered (nested_render_text / run_directive); each entry
+# is honoured only while the renderer still has the render_<type> method
+LAZY_TOKEN_TYPES = ("fence", "colon_fence", "html_block", "substitution_block")
+
 # string transformations that map different labels to the same value (case / whitespace / character folding)
 FOLDING_METHODS = {"lower", "upper", "casefold", "title", "capitalize", "swapcase"}
 FOLDING_FUNCTIONS = {
@@ -1338,6 +1348,26 @@ def r3_duplicate_path(corpus: Corpus, rep: Report, tier: str):
             rep.violation("C11.R3", key, lsite, "the search does not go below tokens that are not definitions themselves: a definition inside a block quote or list in the duplicate's body (`[^a]: duplicate` + indented `> [^b]: text`) is lost with the duplicate")
         else:
             rep.ok("C11.R3", key, lsite, f"{g.qualname}: each nested {me} token dispatched once, other tokens searched further")
+            # tokens whose content is only tokenised when they are rendered have no children to search
+            owner = fi.cls
+            lazy = sorted(t_ for t_ in LAZY_TOKEN_TYPES if owner is not None and f"render_{t_}" in owner.methods)
+            handled = {c_.value for x in ast.walk(loop) if isinstance(x, ast.Compare) for c_ in [x.left, *x.comparators] if isinstance(c_, ast.Constant) and isinstance(c_.value, str)}
+            for x in ast.walk(loop):
+                if isinstance(x, ast.Compare):
+                    for c_ in x.comparators:
+                        if isinstance(c_, (ast.Tuple, ast.List, ast.Set)):
+                            handled |= {e_.value for e_ in c_.elts if isinstance(e_, ast.Constant)}
+            generic = any(isinstance(x, ast.Subscript) and (dotted(x.value) or "").endswith("self.rules") for x in ast.walk(loop))
+            key2 = f"{fi.fq}|duplicate path|definitions inside directives of the duplicate's body"
+            if lazy and not generic and not (set(lazy) & handled):
+                rep.violation(
+                    "C11.R3",
+                    key2,
+                    lsite,
+                    f"the search only follows token.children; the content of {', '.join(lazy)} tokens (directives, HTML admonitions, block substitutions, includes) is tokenised only when the token is rendered, so a definition written inside a directive in the duplicate's body (`[^a]: duplicate` + indented ```{{note}} / `[^b]: only definition of b`) is dropped with the duplicate",
+                )
+            else:
+                rep.ok("C11.R3", key2, lsite)
     rep.expect_min("C11.R3", 3, "warning count, no-effect, warning type")
 
 
@@ -2377,6 +2407,129 @@ def _descends(f: FunctionInfo) -> str | None:
     return None
 
 
+# docutils transforms that take nodes out of the document after the footnotes were collected (what precedes the
+# footnote transition when it is added can be gone when Transitions looks at it); priorities are read from the sources
+NODE_REMOVERS = {
+    "docutils/transforms/parts.py": ("SectNum", "Contents"),
+    "docutils/transforms/components.py": ("Filter",),
+}
+
+
+def _sibling_priority(corpus: Corpus, rel: str, cname: str) -> int:
+    m = corpus.sibling(rel)
+    ci = m.classes.get(cname)
+    if ci is None:
+        raise AnchorMissing(f"{rel}: class {cname} not found")
+    for st_ in ci.node.body:
+        if isinstance(st_, ast.Assign) and any(_is_name(t, "default_priority") for t in st_.targets) and isinstance(st_.value, ast.Constant) and isinstance(st_.value.value, int):
+            return st_.value.value
+    raise Unsupported(f"{rel}: {cname}.default_priority is not an integer literal")
+
+
+def _class_priority(corpus: Corpus, ci) -> int:
+    """default_priority of a package transform: integer arithmetic over docutils classes' priorities"""
+    m = ci.module
+    stmts = [x for x in ci.node.body if isinstance(x, ast.Assign) and any(_is_name(t, "default_priority") for t in x.targets)]
+    if len(stmts) != 1:
+        raise Unsupported(f"{ci.name}: expected one default_priority assignment")
+
+    def ev_(e: ast.expr) -> int:
+        if isinstance(e, ast.Constant) and isinstance(e.value, int) and not isinstance(e.value, bool):
+            return e.value
+        if isinstance(e, ast.Attribute) and e.attr == "default_priority":
+            full = m.resolve(dotted(e.value) or "")
+            modname, _, cname = full.rpartition(".")
+            if modname.startswith("docutils."):
+                return _sibling_priority(corpus, modname.replace(".", "/") + ".py", cname)
+        if isinstance(e, ast.BinOp) and isinstance(e.op, (ast.Add, ast.Sub)):
+            a_, b_ = ev_(e.left), ev_(e.right)
+            return a_ + b_ if isinstance(e.op, ast.Add) else a_ - b_
+        raise Unsupported(f"{ci.name}.default_priority: `{short(e, 50)}` not understood")
+
+    return ev_(stmts[0].value)
+
+
+def _recheck_before_transitions(corpus: Corpus, rep: Report, fi: FunctionInfo, tfi: FunctionInfo, ctor_stmt: ast.stmt) -> None:
+    """R9 (d): CollectFootnotes decides at Footnotes+3 that something precedes the footnote transition, docutils judges
+    at Transitions' priority; SectNum/Contents/Filter remove nodes in between. A pending transform scheduled between the
+    last remover and Transitions must take the transition out again when only leading nodes are left in front of it."""
+    key = f"{fi.fq}|footnote transition|re-checked after docutils removed pending/contents nodes, before Transitions"
+    tcfg = get_cfg(tfi)
+    tv = ctor_stmt.targets[0].id if isinstance(ctor_stmt, ast.Assign) and isinstance(ctor_stmt.targets[0], ast.Name) else None
+    if tv is None:
+        raise Unsupported("transition not bound to a local")
+    pend = []
+    for n in tfi.local_nodes():
+        if isinstance(n, ast.Call) and tfi.module.resolve(dotted(n.func) or "") == "docutils.nodes.pending" and n.args and any(_is_name(x, tv) for a_ in n.args[1:] + [k.value for k in n.keywords] for x in ast.walk(a_)):
+            pend.append(n)
+    site = tfi.module.site(ctor_stmt)
+    why = "what precedes the transition when it is added (a {contents} topic, the pending node of {sectnum}, html_meta pending nodes) is removed by docutils' SectNum/Contents/Filter transforms before its Transitions transform looks: `# Title[^a]`, a {contents} directive and `[^a]: text` end with the transition right behind the title and the docutils ERROR 'Document or section may not begin with a transition'"
+    if not pend:
+        rep.violation("C11.R9", key, site, "the footnote transition is attached for good, no pending transform re-checks it later: " + why)
+        return
+    removers = max(_sibling_priority(corpus, rel, c) for rel, cs in NODE_REMOVERS.items() for c in cs)
+    trans_prio = _sibling_priority(corpus, "docutils/transforms/misc.py", "Transitions")
+    for pc in pend:
+        problems = []
+        # registered on every path that attaches the transition
+        reg = next((a_ for a_ in ancestors(pc) if isinstance(a_, ast.Call) and isinstance(a_.func, ast.Attribute) and a_.func.attr == "note_pending"), None)
+        if reg is None:
+            problems.append("the pending node is built but not registered with document.note_pending")
+        else:
+            pev = Events(tfi)
+            pev.add("reg", reg)
+            got = pev.paths("reg", ctor_stmt, EXIT)
+            if got != {1}:
+                problems.append(f"the re-check is registered {_fmt(got)} time(s) on the paths that build the transition")
+        ci = corpus.find_class(tfi.module.resolve(dotted(pc.args[0]) or ""))
+        if ci is None:
+            raise Unsupported(f"{tfi.module.site(pc)}: pending transform `{short(pc.args[0], 40)}` is not a package class")
+        prio = _class_priority(corpus, ci)
+        if not (removers < prio < trans_prio):
+            problems.append(f"{ci.name} runs at priority {prio}: it has to run after docutils' last node-removing transform ({removers}) and before Transitions ({trans_prio})")
+        ap = ci.methods.get("apply")
+        if ap is None:
+            raise Unsupported(f"{ci.name} has no apply()")
+        rep.saw_function(ap.fq)
+        rm = [n for n in ap.local_nodes() if isinstance(n, ast.Call) and isinstance(n.func, ast.Attribute) and n.func.attr in ("remove", "replace_self", "pop")]
+        if not rm:
+            problems.append(f"{ci.name}.apply never removes the transition")
+        else:
+            acfg = get_cfg(ap)
+            decided = False
+            for t_, pol_ in acfg.guards(acfg.stmt_of(rm[0])):
+                t_ = _deref(ap, t_) if isinstance(t_, ast.Name) else t_
+                while isinstance(t_, ast.UnaryOp) and isinstance(t_.op, ast.Not):
+                    t_, pol_ = t_.operand, not pol_
+                if isinstance(t_, ast.Call) and dotted(t_.func) in ("all", "any") and len(t_.args) == 1 and isinstance(t_.args[0], (ast.GeneratorExp, ast.ListComp)) and len(t_.args[0].generators) == 1:
+                    g_ = t_.args[0].generators[0]
+                    e_ = t_.args[0].elt
+                    neg_ = False
+                    while isinstance(e_, ast.UnaryOp) and isinstance(e_.op, ast.Not):
+                        e_, neg_ = e_.operand, not neg_
+                    if not (isinstance(e_, ast.Call) and dotted(e_.func) == "isinstance" and len(e_.args) == 2 and isinstance(g_.target, ast.Name) and _is_name(e_.args[0], g_.target.id)):
+                        continue
+                    decided = True
+                    cs = _class_set(ap, e_.args[1]) or set()
+                    q_ = dotted(t_.func)
+                    # remove iff every node in front of the transition is a leading node: all(L) holds / any(not L) fails
+                    right = (q_ == "all" and not neg_ and pol_) or (q_ == "any" and neg_ and not pol_)
+                    if not right:
+                        problems.append(f"{ci.name}.apply removes the transition under `{short(t_, 60)}` taken as {'true' if pol_ else 'false'}: it has to go exactly when ALL nodes in front of it are leading nodes")
+                    missing = sorted(c.rsplit(".", 1)[-1] for c in _transition_header_classes() if not (_docutils_ancestors(c) & cs))
+                    if missing:
+                        problems.append(f"{ci.name}.apply does not count {'/'.join(missing)} among the leading nodes")
+                    sl_ = [x for x in ast.walk(g_.iter) if isinstance(x, ast.Subscript) and isinstance(x.slice, ast.Slice)]
+                    if not any(isinstance(x, ast.Attribute) and x.attr == "children" for x in ast.walk(g_.iter)) and not sl_:
+                        problems.append(f"{ci.name}.apply does not look at the nodes in front of the transition (`{short(g_.iter, 40)}`)")
+            if not decided:
+                raise Unsupported(f"{ap.module.site(rm[0])}: condition for removing the transition not understood")
+        if problems:
+            rep.violation("C11.R9", key, tfi.module.site(pc), "; ".join(problems) + " - " + why)
+        else:
+            rep.ok("C11.R9", key, tfi.module.site(pc), f"{ci.name} at {prio} (removers <= {removers}, Transitions {trans_prio})")
+
+
 @rule("C11.R9")
 def r9_transition_placement(corpus: Corpus, rep: Report, tier: str):
     _use(corpus)
@@ -2480,6 +2633,7 @@ def r9_transition_placement(corpus: Corpus, rep: Report, tier: str):
                 holders[0].site(),
                 f"{holders[0].qualname} tests for an existing transition without going down the tree (no loop that advances, no recursion, no tree traversal): a thematic break that ends the last section is only moved to the document level by docutils afterwards, so `# A`, `# B`, text, `---`, `[^x]: X` still gets two adjacent transitions and the docutils ERROR",
             )
+    _recheck_before_transitions(corpus, rep, fi, tfi, st)
     rep.expect_min("C11.R9", 2, "not-first and not-adjacent")
 
 
@@ -3321,6 +3475,25 @@ def mutants(corpus: Corpus):
     tif2 = find_node(cf, lambda n: isinstance(n, ast.If) and bool(_option_reads(cf, n.test, "myst_footnote_transition")))
     qcall = next((x for x in ast.walk(tif2.test) if isinstance(x, ast.Call) and dotted(x.func) == "isinstance" and isinstance(x.args[1], (ast.BinOp, ast.Tuple)) and "footnote" in unparse(x.args[1])), None) if tif2 is not None else None
     add("c11-revert-404c5d4-promoted-title-not-counted", "C11.R9", tm, qcall.args[1] if qcall is not None else None, "nodes.footnote", "not the first element", True)
+    # ---- R9 (d): revert of fix 5f2b310 and partial weakenings (the footnote transition is not re-checked before Transitions)
+    np_ = find_stmt(cf, lambda n: isinstance(n, ast.Expr) and isinstance(n.value, ast.Call) and isinstance(n.value.func, ast.Attribute) and n.value.func.attr == "note_pending" and "transition" in unparse(n))
+    add("c11-revert-5f2b310-transition-not-rechecked", "C11.R9", tm, np_, "pass", "re-checked after docutils removed", True)
+    pcall = next((x for x in ast.walk(np_) if isinstance(x, ast.Call) and cf.module.resolve(dotted(x.func) or "") == "docutils.nodes.pending" and x.args), None) if np_ is not None else None
+    dci = tm.classes.get(unparse(pcall.args[0])) if pcall is not None else None
+    if dci is not None:
+        pr = _class_attr_stmt(tm, dci.name, "default_priority")
+        add("c11-recheck-runs-before-contents-is-removed", "C11.R9", tm, pr.value if pr else None, "Footnotes.default_priority + 4", "re-checked after docutils removed")
+        add("c11-recheck-runs-after-transitions", "C11.R9", tm, pr.value if pr else None, "Transitions.default_priority + 1", "re-checked after docutils removed")
+        dap = dci.methods.get("apply")
+        q_ = find_node(dap, lambda n: isinstance(n, ast.Call) and dotted(n.func) == "all") if dap is not None else None
+        add("c11-recheck-removes-when-any-leading-node", "C11.R9", tm, q_.func if q_ is not None else None, "any", "re-checked after docutils removed")
+        ic_ = find_node(dap, lambda n: isinstance(n, ast.Call) and dotted(n.func) == "isinstance" and isinstance(n.args[1], (ast.BinOp, ast.Tuple))) if dap is not None else None
+        add("c11-recheck-forgets-subtitle", "C11.R9", tm, ic_.args[1] if ic_ is not None else None, "nodes.title | nodes.system_message", "re-checked after docutils removed")
+        if np_ is not None:
+            ni_ = " " * np_.col_offset
+            add("c11-recheck-registered-only-without-sections", "C11.R9", tm, np_, f"if not list(self.document.findall(nodes.section)):\n{ni_}    " + _seg(tm, np_).replace("\n", "\n    "), "re-checked after docutils removed")
+    else:
+        out.append(("c11-recheck-runs-before-contents-is-removed", "pending transform class of the footnote transition not found"))
     # ---- R3: revert of fix f7f28d7 (definitions nested in a dropped duplicate are lost)
     dupif2 = find_node(dfn, lambda n: isinstance(n, ast.If) and any(isinstance(x, ast.Return) for x in n.body) and any(isinstance(x, ast.Expr) and "create_warning" in unparse(x) for x in n.body))
     wl = next((x for x in dupif2.body if isinstance(x, (ast.While, ast.For))), None) if dupif2 is not None else None
@@ -3448,7 +3621,7 @@ def mutants(corpus: Corpus):
                 # revert of fix 660401f (later edit first)
                 a_, b_ = sorted([(conv[0].value, _seg(tm, c_int)), (rest[0].value, s_lab.id)], key=lambda t: -t[0].lineno)
                 src = splice(splice(tm.src, a_[0], a_[1]), b_[0], b_[1])
-                out.append(Mutant("c11-revert-660401f-collector-key-int-or-str", "C11.R8", tm.rel, src, expect="CollectFootnotes.apply._sort_key", canary=True))
+                out.append(Mutant("c11-revert-660401f-collector-key-int-or-str", "C11.R8", tm.rel, src, expect="CollectFootnotes.apply._sort_key"))
             else:
                 out.append(("c11-revert-660401f-collector-key-int-or-str", "fallback return has no label element"))
         else:
